@@ -137,7 +137,8 @@ def _lit(c: Any, av: int, icase: bool) -> Any:
     if _PH_BASE <= av < _PH_BASE + len(_placeholders):
         ph = _placeholders[av - _PH_BASE]
         if icase:
-            raise Unsupported('IGNORECASE on symbolic pattern literal')
+            # ASCII case folding (symbolic non-ASCII letters are outside the model)
+            return _lower(c) == _lower(ph)
         return c == ph
     if icase and (65 <= av <= 90 or 97 <= av <= 122):
         return _anyeq(c, (av | 32, av & ~32))
